@@ -694,7 +694,8 @@ func genBuilder(ctx TaggedStructContext, genMethod fp.Set[string]) fp.Set[string
 func processBuilder(ctx TaggedStructContext, genMethod fp.Set[string]) fp.Set[string] {
 	ts := ctx.ts
 
-	if _, ok := ts.Tags.Get("@fp.Builder").Unapply(); ok {
+	// @fp.Value has already generated the builder in this run
+	if _, ok := ts.Tags.Get("@fp.Builder").Unapply(); ok && !genMethod.Contains("Builder") {
 
 		genMethod = genBuilder(ctx, genMethod)
 	}
